@@ -1,6 +1,6 @@
 #!/bin/bash
 # Property-preserving refactorings must not raise an alarm: every listed check must exit 0 without VIOLATION lines.
-cd /verif
+cd "$(dirname "$(dirname "$(readlink -f "$0")")")"
 rc=0
 for d in seeded/_refactorings/*.diff; do
   for prop in ${PROPS:-C01 C02 C11 C15}; do
